@@ -7,13 +7,13 @@ ID="$1"; N="$2"; shift 2; LINK="$*"
 W=/tmp/seed/$ID; S=$W/_seed/$N
 cd "$W" || exit 2
 git checkout -- include 2>/dev/null
-g++ -std=c++17 -O1 -w -I$W/include $S/demo.cpp -o /tmp/seed/demo_${ID}_${N} $LINK 2>/tmp/seed/demo_${ID}_${N}.err || { echo "demo does not compile on clean tree"; tail -5 /tmp/seed/demo_${ID}_${N}.err; exit 2; }
+${SEEDCXX:-g++} -std=c++17 -O1 -w -I$W/include $S/demo.cpp -o /tmp/seed/demo_${ID}_${N} $LINK 2>/tmp/seed/demo_${ID}_${N}.err || { echo "demo does not compile on clean tree"; tail -5 /tmp/seed/demo_${ID}_${N}.err; exit 2; }
 timeout 120 /tmp/seed/demo_${ID}_${N} >/dev/null 2>&1; clean_rc=$?
 git apply "$S/patch.diff" || { echo "patch does not apply"; exit 2; }
 if [ ! -d _build ]; then cmake -G Ninja -S . -B _build -DCMAKE_BUILD_TYPE=RelWithDebInfo -DCMAKE_CXX_FLAGS=-Wno-error -DCMAKE_COMPILE_WARNING_AS_ERROR=OFF >/dev/null 2>&1; fi
 cmake --build _build -j16 >/tmp/seed/build_${ID}_${N}.log 2>&1; build_rc=$?
 tests=$(OMPI_ALLOW_RUN_AS_ROOT=1 OMPI_ALLOW_RUN_AS_ROOT_CONFIRM=1 ctest --test-dir _build -j8 --timeout 900 2>&1 | grep "tests passed")
-g++ -std=c++17 -O1 -w -I$W/include $S/demo.cpp -o /tmp/seed/demo_${ID}_${N} $LINK 2>/dev/null; timeout 120 /tmp/seed/demo_${ID}_${N} >/dev/null 2>&1; mut_rc=$?
+${SEEDCXX:-g++} -std=c++17 -O1 -w -I$W/include $S/demo.cpp -o /tmp/seed/demo_${ID}_${N} $LINK 2>/dev/null; timeout 120 /tmp/seed/demo_${ID}_${N} >/dev/null 2>&1; mut_rc=$?
 git checkout -- include
 rm -f /tmp/seed/demo_${ID}_${N} /tmp/seed/demo_${ID}_${N}.err
 echo "$ID-$N: clean demo rc=$clean_rc; build rc=$build_rc; $tests; mutated demo rc=$mut_rc"
